@@ -13,13 +13,14 @@ Definition zg `{Countable K} (m : gmap K Z) (k : K) : Z := default 0 (m !! k).
 
 (** actors: 0 O (origin) 1 P 2-4 contracts 5 staking precompile 6 distribution
     precompile 7 bonded pool 8 not-bonded pool 9 distribution module 10 evm module 11 fee collector
-    12 ICS-20 precompile 13 escrow account of the transfer channel *)
+    12 ICS-20 precompile 13 escrow account of the transfer channel
+    14.. addresses at which the contracts 2-4 create new contracts (CREATE address of creator and nonce) *)
 Definition A_BONDED : N := 7.
 Definition A_NOTBONDED : N := 8.
 Definition A_DISTR : N := 9.
 Definition A_EVM : N := 10.
 Definition A_ESCROW : N := 13.
-Definition blocked (a : N) : bool := N.leb 5 a && negb (N.eqb a A_ESCROW).     (* precompile and module addresses cannot receive coins *)
+Definition blocked (a : N) : bool := N.leb 5 a && N.leb a 12.     (* precompile and module addresses cannot receive coins *)
 Definition is_precompile (a : N) : bool := N.eqb a 5 || N.eqb a 6 || N.eqb a 12.
 
 (** * Cosmos side *)
@@ -47,7 +48,8 @@ Definition withdraw_addr (W : world) (a : N) : N := default a (wdaddr W !! a).
 (** * StateDB *)
 Record obj := mkobj { obal : Z; dstor : gmap Z Z; ostor : gmap Z Z; tstor : gmap Z Z; osui : bool (* self-destructed *) }.
 Inductive jentry := JBal (a : N) (prev : Z) | JStor (a : N) (k prev : Z) | JCreate (a : N) | JLog
-                  | JSuicide (a : N) (prev : bool) (prevbal : Z).
+                  | JSuicide (a : N) (prev : bool) (prevbal : Z)
+                  | JReset (a : N) (prev : obj).
 Record sdb := mksdb {
   objs : gmap N obj;
   journal : list jentry;            (* newest first *)
@@ -57,7 +59,7 @@ Record sdb := mksdb {
 Definition sdb0 : sdb := mksdb ∅ [] ∅ 0.
 
 Definition dirtied (e : jentry) : option N :=
-  match e with JBal a _ => Some a | JStor a _ _ => Some a | JCreate a => Some a | JLog => None | JSuicide a _ _ => Some a end.
+  match e with JBal a _ => Some a | JStor a _ _ => Some a | JCreate a => Some a | JLog => None | JSuicide a _ _ => Some a | JReset a _ => Some a end.
 
 Definition japp (D : sdb) (e : jentry) : sdb :=
   mksdb (objs D) (e :: journal D)
@@ -95,6 +97,28 @@ Definition add_bal (W : world) (D : sdb) (a : N) (amt : Z) : sdb :=
   let D1 := get_or_new W D a in if amt =? 0 then D1 else set_bal D1 a (cbal D1 a + amt).
 Definition sub_bal (W : world) (D : sdb) (a : N) (amt : Z) : sdb := add_bal W D a (- amt).
 
+(** CreateAccount over an existing object (resetObjectChange): a fresh object that carries the balance over;
+    the journal keeps the whole previous object *)
+Definition reset_obj (D : sdb) (a : N) : sdb :=
+  match objs D !! a with
+  | Some o => set_obj (japp D (JReset a o)) a (mkobj (obal o) ∅ ∅ ∅ false)
+  | None => D
+  end.
+
+(** account nonce and "has code" are kept as two pseudo storage slots (negative keys, never used by programs), so
+    that SetNonce / SetCode are journalled, reverted, flushed and deleted by the storage machinery: the nonce slot
+    holds the number of CREATEs the contract has made (real nonce - 1 for a contract) *)
+Definition NONCE_SLOT : Z := -1.
+Definition CODE_SLOT : Z := -2.
+Definition read_state (W : world) (D : sdb) (a : N) (k : Z) : Z :=
+  match objs D !! a with
+  | Some o => match dstor o !! k with
+              | Some v => v
+              | None => match ostor o !! k with Some c => c | None => zg (store W) (a, k) end
+              end
+  | None => zg (store W) (a, k)
+  end.
+
 (** SetState *)
 Definition set_state (W : world) (D : sdb) (a : N) (k v : Z) : sdb :=
   let D1 := get_or_new W D a in
@@ -127,6 +151,7 @@ Definition undo (D : sdb) (e : jentry) : sdb :=
     | JLog => mksdb (objs D) (journal D) (dirties D) (Nat.pred (logs D))
     | JSuicide a p pb => match objs D !! a with
                          | Some o => set_obj D a (mkobj pb (dstor o) (ostor o) (tstor o) p) | None => D end
+    | JReset a prev => set_obj D a prev
     end in
   match dirtied e with
   | Some a => let c := Nat.pred (default O (dirties D1 !! a)) in
@@ -332,13 +357,17 @@ Definition pre_target (p : pcall) : N :=
 Definition st := (world * sdb)%type.
 
 (** [run] executes the callee (script body, precompile, or nothing for an EOA) *)
-Definition do_call (order : list N) (s : st) (caller target : N) (value : Z)
+(** [force]: CREATE always makes the account; a CALL with no value to an address that does not exist (and is
+    not a precompile) returns at once without touching anything (EIP-158) *)
+Definition do_call_gen (force : bool) (order : list N) (s : st) (caller target : N) (value : Z)
            (run : st -> st * outcome) : st * outcome :=
   let '(W, D) := s in
   if negb (value =? 0) && (cbal (load W D caller) caller <? value) then ((W, load W D caller), Fail) else
   let D0 := if value =? 0 then D else load W D caller in
   let snap := snapshot D0 in
   let D1 := load W D0 target in
+  if negb force && match objs D1 !! target with None => true | Some _ => false end && (value =? 0) && negb (is_precompile target)
+  then ((W, D0), Ok) else
   let D2 := match objs D1 !! target with
             | Some _ => D1
             | None => japp (set_obj D1 target (mkobj 0 ∅ ∅ ∅ false)) (JCreate target)   (* CreateAccount *)
@@ -349,6 +378,7 @@ Definition do_call (order : list N) (s : st) (caller target : N) (value : Z)
   | Ok => ((W4, D4), Ok)
   | Fail => ((W4, revert_to D4 snap), Fail)
   end.
+Definition do_call := do_call_gen false.
 
 Definition run_pre (order : list N) (o c : N) (p : pcall) (s : st) : st * outcome :=
   let '(W, D) := s in
@@ -359,6 +389,9 @@ Inductive instr :=
 | ISStore (k v : Z) | ILog | IRevert | IBalance (a : N)
 | ISelfdestruct (b : N)     (* SELFDESTRUCT to beneficiary b; halts the frame: the encoder puts it last in a body *)
 | ICall (t : N) (value : Z) (catch : bool) (rec : option Z) (body : list instr)
+| ICreate (addrs : list N) (value : Z) (catch : bool) (rec : option Z) (setcode : bool) (body : list instr)
+      (* CREATE with a constructor running [body] as the new contract; [addrs]: the CREATE address for the creator's
+         nonce slot 0, 1, ... (computed by the harness); [setcode]: the constructor returns non-empty runtime code *)
 | IPre (p : pcall) (value : Z) (catch : bool) (rec : option Z).
 
 Definition after_call (self : N) (catch : bool) (rec : option Z) (r : st * outcome) : st * outcome :=
@@ -388,6 +421,32 @@ Fixpoint exec_instr (order : list N) (o self : N) (i : instr) (s : st) {struct i
                                 match oc with Ok => exec_list r s1 | _ => (s1, oc) end
                     end) in
       after_call self catch rec (do_call order s self t value (fun s' => if N.leb 2 t && N.leb t 4 then run body s' else (s', Ok)))
+  | ICreate addrs value catch rec setcode body =>
+      let run := (fix exec_list (l : list instr) (t : N) (s : st) {struct l} : st * outcome :=
+                    match l with
+                    | [] => (s, Ok)
+                    | x :: r => let '(s1, oc) := exec_instr order o t x s in
+                                match oc with Ok => exec_list r t s1 | _ => (s1, oc) end
+                    end) in
+      let '(W, D) := s in
+      (* CanTransfer comes first: nothing happens when the creator cannot pay *)
+      if negb (value =? 0) && (cbal (load W D self) self <? value) then after_call self catch rec ((W, load W D self), Fail) else
+      let D0 := load W D self in
+      let n := read_state W D0 self NONCE_SLOT in
+      let D1 := set_state W D0 self NONCE_SLOT (n + 1) in     (* the creator's nonce moves before the snapshot: it stays when the creation fails *)
+      match nth_error addrs (Z.to_nat n) with
+      | None => after_call self catch rec ((W, D1), Fail)      (* the harness supplies enough addresses *)
+      | Some t =>
+          after_call self catch rec
+            (do_call_gen true order (W, D1) self t value
+               (fun s' => let '(W', D') := s' in
+                          let s1 := (W', reset_obj D' t) in     (* CreateAccount (the transfer has been made: the balance is carried over) *)
+                          let '(s2, oc) := run body t s1 in
+                          match oc with
+                          | Ok => ((fst s2, if setcode then set_state (fst s2) (snd s2) t CODE_SLOT 1 else snd s2), Ok)
+                          | Fail => (s2, Fail)
+                          end))
+      end
   | IPre p value catch rec =>
       after_call self catch rec (do_call order s self (pre_target p) value (run_pre order o self p))
   end.
@@ -421,7 +480,8 @@ Record ecase := mkecase {
 Record eobs := mkeobs {
   b_ok : bool; b_bal : list Z; b_supply : Z; b_deleg : list Z; b_unbond : list Z; b_wd : list Z;
   b_storage : list (N * Z * Z);
-  b_alive : list bool                 (* auth account of the contracts 2..4 still exists *)
+  b_alive : list Z;                   (* contracts 2..4 and the CREATE addresses 14..19: 0 no auth account, 1 account without code, 2 with code *)
+  b_nonce : list Z                    (* CREATEs made by the contracts 2..4 (account nonce - 1) *)
 }.
 Global Instance eobs_eq_dec : EqDecision eobs.
 Proof. solve_decision. Defined.
@@ -440,19 +500,22 @@ Definition world_of (c : ecase) (mod_bal : list Z) : world :=
           (list_to_set (nseq 5) ∪ list_to_set [7%N; 8%N; 9%N; 10%N; 11%N] ∪ (if e_wd_disabled c then {[A_WD_DISABLED]} else ∅))
           (of_list_from 0 (e_deleg c)) ∅ (wd_from 0 (e_wd c))
           (of_list_from 0 (e_reward c)) ∅
-          (list_to_map (map (fun '(g, d, l) => ((g, d), l)) (e_grants c))) ∅.
+          (list_to_map (map (fun '(g, d, l) => ((g, d), l)) (e_grants c)))
+          (list_to_map [((2%N, CODE_SLOT), 1); ((3%N, CODE_SLOT), 1); ((4%N, CODE_SLOT), 1)]).
 
 Definition observe (c : ecase) (W : world) (ok : bool) : eobs :=
-  mkeobs ok (map (fun a => zg (bank W) a) (nseq 14)) (supply W)
+  mkeobs ok (map (fun a => zg (bank W) a) (nseq 20)) (supply W)
          (map (fun a => zg (deleg W) a) (nseq 5)) (map (fun a => zg (unbond W) a) (nseq 5))
          (map (fun a => Z.of_N (withdraw_addr W a)) (nseq 5))
          (flat_map (fun '(a, k) => let v := zg (store W) (a, k) in if v =? 0 then [] else [(a, k, v)]) (e_slots c))
-         (map (fun a => bool_decide (a ∈ wexists W)) [2%N; 3%N; 4%N]).
+         (map (fun a => if bool_decide (a ∈ wexists W) then (if zg (store W) (a, CODE_SLOT) =? 0 then 1 else 2) else 0)
+              [2%N; 3%N; 4%N; 14%N; 15%N; 16%N; 17%N; 18%N; 19%N])
+         (map (fun a => zg (store W) (a, NONCE_SLOT)) [2%N; 3%N; 4%N]).
 
 (** well-formed programs: SELFDESTRUCT halts its frame, so nothing follows it in a body *)
 Fixpoint sd_ok (i : instr) : bool :=
   match i with
-  | ICall _ _ _ _ body =>
+  | ICall _ _ _ _ body | ICreate _ _ _ _ _ body =>
       (fix go (l : list instr) : bool :=
          match l with
          | [] => true
